@@ -1286,6 +1286,13 @@ Proof.
   cbn [map]. rewrite IH. replace (fst f =? name) with false by lia. reflexivity.
 Qed.
 
+Lemma flip_dir_app : forall n p v d1 d2,
+  flip_dir n p v (d1 ++ d2) = flip_dir n p v d1 ++ flip_dir n p v d2.
+Proof. intros. unfold flip_dir. apply map_app. Qed.
+Lemma flip_dir_hit : forall n p v bs d,
+  flip_dir n p v ((n, bs) :: d) = (n, set_nth (N.to_nat p) v bs) :: flip_dir n p v d.
+Proof. intros. unfold flip_dir. cbn [map fst snd]. now rewrite N.eqb_refl. Qed.
+
 Lemma ne_names : forall (A : list afile) name, Forall (fun y => y <> name) (map fst A) ->
   Forall (fun f : file => fst f <> name) (enc A).
 Proof.
@@ -1320,9 +1327,7 @@ Proof.
   rewrite nth_app_l in Hne by exact Hq.
   pose proof Hs as Hs'. rewrite map_app in Hs'. cbn [map fst] in Hs'. apply ss_mid in Hs'. destruct Hs' as [N1 N2].
   rewrite enc_app. cbn [enc map fst snd]. fold (enc B).
-  unfold flip_dir. rewrite map_app. cbn [map fst snd]. rewrite N.eqb_refl.
-  fold (flip_dir name (N.of_nat (length (frames R1) + q)) v (enc A)).
-  fold (flip_dir name (N.of_nat (length (frames R1) + q)) v (enc B)).
+  rewrite flip_dir_app, flip_dir_hit.
   rewrite !flip_dir_other by (apply ne_names; assumption).
   rewrite Nnat.Nat2N.id. rewrite Hfr.
   rewrite set_nth_app_r by lia. replace (length (frames R1) + q - length (frames R1))%nat with q by lia.
@@ -1339,4 +1344,33 @@ Proof.
   destruct Ht as [-> | ->].
   - destruct (enc B); eexists; split; reflexivity.
   - eexists; split; reflexivity.
+Qed.
+
+Lemma corrupt_all : forall ops, ops_ok ops ->
+  exists s, run ops = Some s /\
+    forall name bs pos v from,
+      In (name, bs) (sdir s) -> pos < nlen bs -> v < 256 -> v <> nth (N.to_nat pos) bs 0 ->
+      Known_C15 (sdir s) name pos = false ->
+      exists L' T o,
+        replay (flip_dir name pos v (sdir s)) from = (keep from L', o) /\
+        appended ops = L' ++ T /\ T <> [].
+Proof.
+  intros ops (Hnc & Hok & Hb). destruct (run_inv ops init [] Inv_init Hnc Hok Hb) as (s & E & HI).
+  cbn [app] in HI. destruct (Inv_valid s _ HI Hok Hb) as (afs & Hd & Hr & Hs & HV).
+  exists s. split; [exact E|]. intros name bs pos v from Hin Hpos Hv Hne Hk.
+  assert (Hseq : in_seq_field (S (length bs)) bs pos = false).
+  { destruct (in_seq_field (S (length bs)) bs pos) eqn:Es; [|reflexivity].
+    assert (X : Known_C15 (sdir s) name pos = true); [|congruence].
+    unfold Known_C15. apply existsb_exists. exists (name, bs). split; [exact Hin|].
+    cbn [fst snd]. now rewrite N.eqb_refl, Es. }
+  rewrite Hd in Hin |- *. unfold enc in Hin. apply in_map_iff in Hin.
+  destruct Hin as ([n R] & Ea & Hin). cbn [fst snd] in Ea. inversion Ea; subst n bs.
+  apply in_split in Hin. destruct Hin as (A & B & ->).
+  unfold nlen in Hpos.
+  destruct (replay_flip A name R B (N.to_nat pos) v from Hs HV) as (R1 & r & R2 & o & ER & Erep);
+    try assumption; [lia | now rewrite Nnat.N2Nat.id|].
+  rewrite Nnat.N2Nat.id in Erep. fold (enc (A ++ (name, R) :: B)).
+  exists (recs A ++ R1), (r :: R2 ++ recs B), o. split; [exact Erep|]. split; [|discriminate].
+  unfold appended. rewrite <- Hr, recs_app, recs_cons. cbn [snd]. rewrite ER.
+  now rewrite <- !app_assoc.
 Qed.
